@@ -26,6 +26,22 @@ class ReplayNotApplicable(Exception):
     pass
 
 
+def _raised_by_the_harness(e):
+    """was the exception raised by /verif's own helper code (specs, external models, the native vprim) rather than by astropy/regions
+    or a library it calls?  Such an exception says nothing about the code under test"""
+    if isinstance(e, NotImplementedError) and 'exist only in the symbolic run' in str(e):
+        return True
+    tb = e.__traceback__
+    last = None
+    while tb is not None:
+        last = tb.tb_frame.f_code.co_filename
+        tb = tb.tb_next
+    if last is None:
+        return False
+    last = os.path.abspath(last)
+    return last.startswith(os.path.abspath(VERIF) + os.sep) and '/contracts/' not in last
+
+
 class PreFalse(Exception):
     pass
 
@@ -254,6 +270,12 @@ def same(a, b, depth=0):
 def run_contract(cls, target, case_kw, model, clause, verbose=True):
     """returns ('violated'|'holds'|'pre_false'|'n/a', detail)"""
     B = NativeBuilder(model)
+    try:
+        import vprim as _nv
+        _nv.UF_MODEL = {k: {'entries': [([py_val(a) for a in args], py_val(val)) for args, val in v.get('entries', [])], 'else': py_val(v.get('else'))}
+                        for k, v in model.items() if isinstance(v, dict) and 'entries' in v}
+    except Exception:
+        pass
     setup = cls.__dict__['setup']
     setup = getattr(setup, '__func__', setup)
     try:
@@ -308,6 +330,8 @@ def run_contract(cls, target, case_kw, model, clause, verbose=True):
         outcome = ('return', result)
     except Exception as e:
         outcome = ('raise', e)
+    if outcome[0] == 'raise' and _raised_by_the_harness(outcome[1]):
+        raise ReplayNotApplicable(f'the replay harness (not the code under test) raised {type(outcome[1]).__name__}: {outcome[1]}')
     kind, _, cname = clause.partition('.')
     detail = {'inputs': {k: repr(v)[:300] for k, v in B.used.items()}, 'outcome': (outcome[0], repr(outcome[1])[:300])}
     post = cls.__dict__.get('post') or {}
